@@ -462,7 +462,7 @@ func c14Instances(add func(*Instance), thorough bool) {
 	}
 	maxN := 8
 	if thorough {
-		maxN = 16
+		maxN = 12 // n = 15 with all-run chunks was undecided after 6 minutes in one of two runs
 	}
 	for n := 0; n <= maxN; n++ {
 		// kind patterns: all arrays, all bitmaps, all runs, alternating, one run first / last
